@@ -542,6 +542,7 @@ pub fn oracle_c10_nb(op: &str, outs: &[String]) -> String {
     let mut rx1d: Option<i64> = Some(1000);
     let mut join = false;
     let mut expect_open: Option<i64> = None;
+    let mut in_rx2 = false;
     for (ev, o) in evs.iter().zip(outs.iter()) {
         if o == "PANIC" || o == "HANG" {
             return format!("FAIL:{}", o);
@@ -574,13 +575,16 @@ pub fn oracle_c10_nb(op: &str, outs: &[String]) -> String {
                     }
                 }
                 expect_open = Some(t);
+                in_rx2 = false;
             }
         } else if let Some(t) = tr {
             if o.contains("rxreq(") {
-                // window close
+                // window close: RX1 is over no later than RX2 opens (one second after RX1 opened);
+                // RX2 may last the board's window duration
                 if let Some(open) = expect_open {
-                    if t < open || t > open + duration.max(1000) {
-                        return format!("FAIL:window-close-{}-for-open-{}", t, open);
+                    let latest = if in_rx2 { open + duration.max(1000) } else { open + duration.min(1000) };
+                    if t < open || t > latest {
+                        return format!("FAIL:window-close-{}-for-open-{}-latest-{}", t, open, latest);
                     }
                 }
             } else if o.contains("cancel") {
@@ -589,6 +593,7 @@ pub fn oracle_c10_nb(op: &str, outs: &[String]) -> String {
                         return format!("FAIL:rx2-opens-at-{}-expected-{}", t, open + 1000);
                     }
                     expect_open = Some(t);
+                    in_rx2 = true;
                 }
             }
         }
